@@ -34,7 +34,7 @@ def run_kani_units(pid, tier, units, seed, ev, outcome):
         for u in us:
             h = u["harness"]
             res = results.get(h)
-            status, tags, notes = K.classify(res)
+            status, tags, notes = K.classify(res, must_cover=u.get("must_cover", ()))
             rec = {"engine": "K", "unit": h, "status": status, "what": u.get("what", ""), "bounds": u.get("bounds", ""),
                    "checks": res["checks"] if res else 0, "discharged": res["success"] + res["unreachable"] if res else 0,
                    "covers": res["covers"] if res else {}, "solver_time_s": res["time_s"] if res else None,
@@ -52,6 +52,33 @@ def run_kani_units(pid, tier, units, seed, ev, outcome):
 def handle_failure(pid, u, tags, feats, known, rec, outcome):
     h = u["harness"]
     short = h.split("::")[-1]
+    cover_tags = [t for t in tags if t.startswith("unsat_cover:")]
+    if cover_tags:
+        # the solver proved that NO input reaches a witness the property requires to be reachable (e.g. "the item at
+        # the phase switch can be skipped"). There is no single counterexample to replay; the native driver samples the
+        # harness and must agree that the witness never occurs.
+        K.prepare()
+        nat = K.native_random(short, feats, trials=20000, seed=int(os.environ.get("VERIF_SEED", "0") or 0) + 1)
+        path = K.write_replay(pid, h, [], {"property": pid, "kani_failed": ",".join(cover_tags), "features": ",".join(feats), "mode": "random-sampling of the harness; the solver's UNSAT is the verdict",
+                                           "replay_cmd": "kani/target replay --random %s 20000 <seed>" % short})
+        rec["replays"] = [{"path": path, "random": nat}]
+        new = []
+        for t in cover_tags:
+            tag = t.split(":", 1)[1]
+            if nat.get("valid_trials", 0) >= 50 and nat.get("covers", {}).get(tag, 0) == 0:
+                key = "%s::%s" % (short, t)
+                kf = known_match(known, pid, key)
+                if kf:
+                    outcome["known"].append((kf, path))
+                else:
+                    new.append(t)
+            else:
+                outcome["inconclusive"].append("%s: cover %s UNSATISFIABLE in Kani but hit natively (%s)" % (h, tag, nat))
+        if new:
+            outcome["violations"].append({"unit": h, "tags": new, "replay": path})
+        tags = [t for t in tags if not t.startswith("unsat_cover:")]
+        if not tags:
+            return
     log("[K] %s FAILED tags=%s -> concrete playback + native replay" % (h, tags))
     scripts, tail = K.concrete_values(pid, h, feats)
     rec["replays"] = []
